@@ -104,9 +104,9 @@ end
 /-- **"an RFC 6733 reader extracts `s` from `bs`"**: `s` is a message the library can represent (known command code
 and application id, valid values, AVPs typed by the dictionary), `bs` has exactly the size of its encoding, and `bs`
 equals that encoding on every significant octet and bit. -/
-structure Parses (dict : Lookup) (bs : Bytes) (s : SMsg) : Prop where
-  cmd : cmdKnown s.cmd = true
-  app : appKnown s.app = true
+structure Parses (T : Tables) (dict : Lookup) (bs : Bytes) (s : SMsg) : Prop where
+  cmd : T.cmdKnown s.cmd = true
+  app : T.appKnown s.app = true
   valid : ValidAvps s.avps
   typed : TypedAvps dict s.avps
   small : (encode s).length < 16777216
